@@ -119,6 +119,40 @@ fn dump_dfa<T: Clone>(dfa: &DFA<MatcherTag<T>>) -> Vec<VerifDfaState<T>> {
     out
 }
 
+/// Every matcher of `TTY_EVENT_AUTOMATA` compiled on its own (`NFA::compile` of the matcher's NFA with the
+/// stop state tagged `Matcher(index)` as `MatcherAutomata::new` does; literal tables keep their items)
+pub fn matcher_dfas() -> Vec<Vec<VerifDfaState<TerminalEvent>>> {
+    TTY_EVENT_AUTOMATA
+        .matchers
+        .iter()
+        .enumerate()
+        .map(|(index, matcher)| {
+            let nfa = match matcher.matcher() {
+                Either::Left(nfa) => nfa
+                    .tags_map(|_| MatcherTag::Matcher(index))
+                    .tag_stop_state(MatcherTag::Matcher(index)),
+                Either::Right(nfa) => nfa.tags_map(MatcherTag::Item),
+            };
+            dump_dfa(&nfa.compile())
+        })
+        .collect()
+}
+
+/// Does the matcher with the given index, compiled on its own, accept exactly these bytes?
+pub fn matcher_matches(index: usize, data: &[u8]) -> bool {
+    static DFAS: std::sync::LazyLock<Vec<DFA<MatcherTag<TerminalEvent>>>> = std::sync::LazyLock::new(|| {
+        TTY_EVENT_AUTOMATA
+            .matchers
+            .iter()
+            .map(|matcher| match matcher.matcher() {
+                Either::Left(nfa) => nfa.tags_map(|_| MatcherTag::Matcher(0)).compile(),
+                Either::Right(nfa) => nfa.tags_map(MatcherTag::Item).compile(),
+            })
+            .collect()
+    });
+    DFAS[index].matches(data.iter().copied())
+}
+
 /// Automaton of `TTYEventDecoder`
 pub fn event_dfa() -> Vec<VerifDfaState<TerminalEvent>> {
     dump_dfa(&TTY_EVENT_AUTOMATA.automata)
